@@ -25,6 +25,8 @@ import CtyModel.Lemmas.d11Table
 import CtyModel.Lemmas.d11Total
 import CtyModel.Lemmas.d11bColl
 import CtyModel.Lemmas.d11bNum
+import CtyModel.Lemmas.d11bSeq
+import CtyModel.Lemmas.d11bStr
 import CtyModel.Props.C10
 namespace CtyModel
 namespace C11
@@ -642,6 +644,42 @@ theorem call_total_compact (nfc : String → Bool) (E : Stdlib.Env) (args : List
     (∀ w, (call Stdlib.compactSpec Stdlib.compactType (Stdlib.compactImpl E) args).1 ≠ .err (.panicError w)) :=
   Stdlib.call_total_compact E args hargs
 
+/-- **`range` is total** (sequence.go `RangeFunc`: one, two or three numbers; zero, infinite, fractional steps;
+infinite start or end; more than 1024 values — ordinary errors or a list) -/
+theorem call_total_range (nfc : String → Bool) (E : Stdlib.Env) (args : List Value) (hargs : ∀ a ∈ args, a.WF nfc = true) :
+    (∀ w, (call Stdlib.rangeSpec Stdlib.rangeType (Stdlib.rangeImpl E) args).1 ≠ .panic w) ∧
+    (∀ w, (call Stdlib.rangeSpec Stdlib.rangeType (Stdlib.rangeImpl E) args).1 ≠ .err (.panicError w)) :=
+  Stdlib.call_total_range E args hargs
+
+/-- … and the fuel that makes the model's generating loop structurally recursive is never used up: started
+as `Impl` starts it the loop answers a list or the "more than 1024 values" error, never `.unmodelled` — the
+theorem above is not true for the wrong reason -/
+theorem range_fuel_suffices (down : Bool) (stop step x : Num) (hf : Stdlib.isFin step = true) :
+    Stdlib.rangeLoop down (Value.numVal stop) (Value.numVal step) 1025 (Value.numVal x) [] ≠ .unmodelled := by
+  simpa using Stdlib.rangeLoop_fuel_suffices down stop step hf 1025 x [] (by simp) (by simp)
+
+/-- **The string functions that are `cty.StringVal ∘ library` are total, for EVERY library**: `upper`, `lower`,
+`reverse` (of a string), `title`, `trimspace`, `chomp`, `trim`, `trimprefix`, `trimsuffix`, `replace`,
+`regex_replace`, `split`, `indent`, `substr` (string.go, string_replace.go, regexp.go; protocol instances over
+the `Impl` models of C14, `D11b.glueTable`).  `L` stands for the Go standard library, x/text's NFC and the
+grapheme-cluster scanner: no law of the library is assumed — whatever strings it returns, `Call` on
+well-formed arguments of any kind returns a value or an ordinary error.  (That the LIBRARY call itself does
+not panic on the arguments cty passes is not part of this statement: `strings.Repeat` in `indent` is covered
+by `indent_total` above, the others take arbitrary strings.) -/
+theorem call_total_string_functions (nfc : String → Bool) :
+    ∀ e ∈ D11b.glueTable, ∀ (L : StdNum.Lib) (E : Stdlib.Env) (args : List Value), (∀ a ∈ args, a.WF nfc = true) →
+      (∀ w, (call (e.2.2.2 L).spec ((e.2.2.2 L).tf E) ((e.2.2.2 L).impl E) args).1 ≠ .panic w) ∧
+      (∀ w, (call (e.2.2.2 L).spec ((e.2.2.2 L).tf E) ((e.2.2.2 L).impl E) args).1 ≠ .err (.panicError w)) :=
+  fun e he L => D11b.callTotal_glueTable e he L
+
+theorem string_functions_listed :
+    D11b.glueTable.map (·.2.1) = ["UpperFunc", "LowerFunc", "ReverseFunc", "TitleFunc", "TrimSpaceFunc", "ChompFunc",
+      "TrimFunc", "TrimPrefixFunc", "TrimSuffixFunc", "ReplaceFunc", "RegexReplaceFunc", "SplitFunc", "IndentFunc",
+      "SubstrFunc"] := by decide
+
+theorem string_functions_static :
+    ∀ e ∈ D11b.glueTable, ∃ T, staticTy? e.2.2.1 = some T ∧ ∀ L E as, (e.2.2.2 L).tf E as = .ok T := D11b.glueTable_static
+
 /-- **The statically typed number and bool functions `signum`, `ceil`, `floor`, `int`, `abs` (`AbsoluteFunc`),
 `neg` (`NegateFunc`), `min`, `max`, `not`, `and`, `or`, `add`, `subtract`, `multiply`, `divide`, `modulo`
 are total** (number.go, bool.go; the protocol
@@ -686,11 +724,16 @@ theorem d11b_specs_are_table_entries :
       | some s, some sy => D11b.specMatches e.2.2.2.spec s && (sy.staticType == some e.2.2.1) &&
           (sy.refine == "refineNonNull") && e.2.2.2.spec.refine.isSome
       | _, _ => false) = true ∧
+    (D11b.glueTable.all fun e =>
+      match Std.find? e.2.1, Std.syntax? e.2.1 with
+      | some s, some sy => D11b.specMatches (e.2.2.2 D11b.idLib).spec s && (sy.staticType == some e.2.2.1) &&
+          (sy.refine == "refineNonNull") && (e.2.2.2 D11b.idLib).spec.refine.isSome
+      | _, _ => false) = true ∧
     (D11b.collTable.all fun e =>
       match Stdlib.byName e.1, Std.find? e.2, Std.syntax? e.2 with
       | some f, some s, some sy => D11b.specMatches f.spec s && (sy.refine == "refineNonNull") && f.spec.refine.isSome
       | _, _, _ => false) = true := by
-  constructor <;> decide
+  refine ⟨?_, ?_, ?_⟩ <;> decide
 
 /-- the hypothesis of the totality theorems is met by non-trivial argument lists, and the calls do
 something: `min(3, marked… no: 3, -2)`, `keys({a=1})` under a mark, `coalescelist(null, unknown)` -/
